@@ -129,7 +129,7 @@ struct TsScn
   int term;                  // 0: wait past deadlines then stop; 1: stop() concurrently; 2: drain(50) concurrently; 3: destructor
   int qP, qT, tP, tT;
 };
-// ops: a scheduleAfter(20ms)  z scheduleAfter(0)  p scheduleAt(past)  P schedulePeriodic(15ms)
+// ops: a scheduleAfter(20ms)  b scheduleAfter(21ms)  z scheduleAfter(0)  p scheduleAt(past)  P schedulePeriodic(15ms)
 //      c cancel(first own timer)  C cancel(periodic)  s sleep 25ms  S scheduleAfter(20ms) with slow handler (30ms)
 //      l late schedule (after terminator) via sleep 200ms then scheduleAfter(5ms)
 void tsProgram(TimerService &svc, const std::string &prog, const std::string &who, std::vector<int> &mine)
@@ -177,7 +177,7 @@ void tsProgram(TimerService &svc, const std::string &prog, const std::string &wh
     {
       Tm &t = L->tm[size_t(k)];
       t.callNs = mc_now_ns();
-      t.delayMs = (op == 'a' || op == 'S') ? 20 : 0;
+      t.delayMs = (op == 'a' || op == 'S') ? 20 : op == 'b' ? 21 : 0; // b: deadline 1 ms behind an 'a' timer scheduled at the same instant
       t.slowMs = op == 'S' ? 30 : 0;
       if (op == 'P')
         t.intervalMs = 15;
@@ -285,6 +285,7 @@ void runTs(const TsScn &sc)
 const TsScn TS[] = {
   {"ts_basic", "azp", "", 0, 2, 1, 3, 2},
   {"ts_two_threads", "ac", "za", 0, 1, 1, 2, 2},
+  {"ts_adjacent_deadlines", "abz", "b", 0, 1, 1, 2, 2}, // the service is awake for one timer while the next is due 1 ms later
   {"ts_cancel_race", "asc", "", 0, 2, 2, 3, 2},
   {"ts_cancel_other_thread", "a", "sc", 0, 1, 1, 2, 2},
   {"ts_periodic_cancel", "PsC", "", 0, 2, 2, 3, 2},
